@@ -702,6 +702,20 @@ class Fn:
         self._reach_cache[key] = out
         return out
 
+    def result_edges(self, e):
+        """(ok_targets, err_targets) of the Result produced by call/await event e: `?`, match, if-let
+        (only Result/ControlFlow scrutinees — a nested Option is not an error edge)."""
+        src = e.poll_dest.l if e.poll_dest is not None else e.dest.l
+        oks, errs = [], []
+        for (_, adt, m) in self.outcome_edges(src):
+            if adt not in ("core::result::Result", "core::ops::control_flow::ControlFlow"):
+                continue
+            if "ok" in m:
+                oks.append(m["ok"])
+            if "err" in m:
+                errs.append(m["err"])
+        return oks, errs
+
     def outcome_edges(self, src_local):
         """Variant edges whose scrutinee derives from `src_local` (through moves, Try::branch,
         Poll::Ready payloads).  Names are normalised: Continue->Ok/Some is reported as 'Continue'
